@@ -1343,6 +1343,10 @@ func (in *Interp) freeze(root value) {
 			for i := range full {
 				if i < len(v) {
 					walkCell(&full[i])
+				} else {
+					// spare capacity of a frozen array is shared storage too: an in-place
+					// append through any alias of the slice writes here
+					in.frozen[&full[i]] = true
 				}
 			}
 		case structure:
